@@ -52,6 +52,26 @@ EXTRA = {
 }
 
 SEP = ";"
+
+# known finding F4 (open): FolderReader pushes a folder entry's NAME as a specification, so entries named `\x.csv`,
+# `file:x.csv`, `FILE:x.csv`, `<registered protocol>:x.csv` are not loaded (another location is resolved instead).
+# Such names are generated only once the finding is listed in known_findings.json under this key.
+F4_KEY = "folder_entry_read_as_specification"
+F4_WHAT = ("a matching folder entry whose name reads like a specification (leading backslash, file:, FILE:, "
+           "<registered protocol>:) is not loaded: FolderReader pushes the bare name and it is re-resolved as a "
+           "specification")
+
+
+def f4_listed():
+    if os.environ.get("VERIF_F4") == "1":
+        return True
+    return any(k.get("status") == "open" and k.get("property") == "C16" and k.get("key") == F4_KEY
+               for k in common.load_known_findings())
+
+
+def speclike_entry(case, name):
+    low = name.lower()
+    return name.startswith(("\\", "/")) or low.startswith("file:") or (case["mem"] and low.startswith("mem:"))
 _AUDIT = {"installed": False, "prefix": None, "events": None, "limit": 400}
 
 
@@ -241,14 +261,6 @@ def materialise(case, root: Path):
         else:
             p.write_text("not a startable file\n")
         m.file_id.append(new_id(str(p), "unreadable" if f["kind"] == "txt" else f["kind"]))
-    # the load identifier a file has while it is loaded: path@mtime (seconds)
-    import datetime
-    m.ident_at_load = {}
-    for f, fid in zip(case["files"], m.file_id):
-        if f["kind"] != "mem":
-            p = m.path_of[fid]
-            m.ident_at_load[p] = p + "@" + datetime.datetime.fromtimestamp(os.stat(p).st_mtime).isoformat(
-                timespec="seconds")
     return m
 
 
@@ -307,6 +319,13 @@ def subst(spec, m):
     return spec.replace("{RN}", m.root.name).replace("{R}", str(m.root))
 
 
+def root_spec(case, m, s):
+    """a root as the loader sees it: `LoadItem(str(f), …)` — the text itself, or str(Path(text)) when the caller
+    hands in a pathlib.Path"""
+    s = subst(s, m)
+    return str(Path(s)) if case.get("roots_as_path") else s
+
+
 def loc_id(m, key):
     """canonical location id of a path / mem identifier; unknown paths get fresh ids (they do not exist)"""
     if key not in m.ids:
@@ -323,7 +342,7 @@ def demands(case, m):
     out = []
     roots = case["roots"] if case["roots"] is not None else ["/"]
     for s in roots:
-        out.append((subst(s, m), None))
+        out.append((root_spec(case, m, s), None))
     for fid, names in m.listing.items():
         for n in names:
             out.append((n, fid))
@@ -382,11 +401,7 @@ def canon_location(m, loc):
     if hasattr(loc, "mem_name"):
         return [loc_id(m, "mem:" + loc.mem_name), None]
     if getattr(loc, "local_path", None) is not None:
-        ident = loc.load_identifier
-        path = str(loc.local_path)
-        if not (ident == path or ident.startswith(path + "@")):
-            return [-1, None]
-        return [loc_id(m, path), None]
+        return [loc_id(m, str(loc.local_path)), None]
     return [loc_id(m, str(loc.local_folder_path)), None]
 
 
@@ -440,7 +455,7 @@ def run_impl(case, m, time_limit=20, shared=None, audit_prefix=None, after_load=
     tracker = make_collector(case.get("tracker_form", "plain")) if case["tracker"] == "collecting" else None
     kwargs = dict(issue_tracker=tracker, allow_include=case["allow_include"])
     if case["root_folder"]:
-        kwargs["root_folder"] = m.root
+        kwargs["root_folder"] = str(m.root) if case.get("root_folder_as_str") else m.root
     mode = case.get("pattern_mode", "start")
     if mode in ("start", "both") and case["start_pattern"] is not None:
         kwargs["file_name_start_pattern"] = case["start_pattern"]
@@ -452,7 +467,13 @@ def run_impl(case, m, time_limit=20, shared=None, audit_prefix=None, after_load=
         kwargs["additional_protocol_loaders"] = protocols
     if case.get("sep", SEP) != SEP or case.get("csv_sep"):
         kwargs["csv_sep"] = case.get("sep", SEP)
-    roots = None if case["roots"] is None else [subst(s, m) for s in case["roots"]]
+    if case.get("own_file_reader"):
+        # the caller builds the FileReader itself (csv_sep / sheet_name_pattern then go there, not to load_files)
+        from pdtable.io.load import FileReader
+        kwargs["file_reader"] = FileReader(sheet_name_pattern=kwargs.pop("sheet_name_pattern", None),
+                                           csv_sep=kwargs.pop("csv_sep", None))
+    roots = None if case["roots"] is None else [
+        Path(subst(s, m)) if case.get("roots_as_path") else subst(s, m) for s in case["roots"]]
     if roots is not None:
         # the roots collection as a list, a tuple, a one-shot generator or a dict view
         form = case.get("roots_form", "list")
@@ -487,7 +508,9 @@ def run_impl(case, m, time_limit=20, shared=None, audit_prefix=None, after_load=
     r.events = events
     r.tracker = tracker
     if after_load is not None:
-        after_load()          # the environment moves on (files touched / deleted) before anything is inspected
+        # identifiers as they read right after the load …
+        r.idents_after_load = _block_idents(r.blocks)
+        after_load()          # … then the environment moves on (files touched / deleted) before the inspection
     try:
         _canonical(case, m, r, events, tracker)
         r.canon_error = None
@@ -495,6 +518,15 @@ def run_impl(case, m, time_limit=20, shared=None, audit_prefix=None, after_load=
         r.canon_error = repr(e)
         r.canon = {"status": {"exc": "inspection:" + type(e).__name__}, "out": [], "reads": [], "issues": []}
     return r
+
+
+def _block_idents(blocks):
+    res = []
+    for bt, b in blocks:
+        origin = b.metadata.origin if bt.name == "TABLE" else getattr(b, "origin", None)
+        il = getattr(origin, "input_location", None)
+        res.append(None if il is None else (il.file.load_identifier, il.load_identifier))
+    return res
 
 
 def _canonical(case, m, r, events, tracker):
@@ -506,6 +538,7 @@ def _canonical(case, m, r, events, tracker):
         if bt == BlockType.TABLE:
             il = b.metadata.origin.input_location
             o["name"] = b.name
+            o["uid"] = b.column_names[0] if len(b.column_names) else None
         elif bt == BlockType.DIRECTIVE:
             il = b.origin.input_location
             o["name"], o["lines"] = b.name, [x if isinstance(x, str) else str(x) for x in b.lines]
@@ -545,11 +578,16 @@ def _canonical(case, m, r, events, tracker):
 
 
 def model_op(case, m, nodes, table, order):
-    return {"op": "load", "nodes": nodes,
+    if isinstance(order, str):
+        order = {"pop": order, "children": "listing", "lines": "forward"}
+    m.order = order
+    return {"op": "load", "nodes": apply_order(case, nodes, order),
             "protocols": [["mem", 1]] if case["mem"] else None,
             "resolve": table,
-            "roots": [subst(s, m) for s in (case["roots"] if case["roots"] is not None else ["/"])],
-            "raising": case["tracker"] != "collecting", "allow_include": case["allow_include"], "order": order,
+            "child_loc": [[fid, n, loc_id(m, str(Path(m.path_of[fid]) / n))] for fid, names in m.listing.items()
+                          for n in names],
+            "roots": [root_spec(case, m, s) for s in (case["roots"] if case["roots"] is not None else ["/"])],
+            "raising": case["tracker"] != "collecting", "allow_include": case["allow_include"], "order": order["pop"],
             "pattern_args": [case.get("pattern_mode", "start") in ("compiled", "both"),
                              case.get("pattern_mode", "start") in ("start", "both")
                              and case["start_pattern"] is not None]}
@@ -583,6 +621,8 @@ def compare(case, m, impl, ans, out, with_history=False):
         if with_history and a["history"] is not None:
             keys.append("history")
         for k in keys:
+            if k == "lines" and getattr(m, "order", {}).get("lines") == "reverse" and b["name"] == "include":
+                b = dict(b, lines=b["lines"][::-1])
             if a[k] != b[k]:
                 out.mismatch(f"yielded block differs in '{k}'", case, a, b)
                 return
@@ -670,7 +710,16 @@ def oracle(case, m, impl, out):
         fatal.add("badtable")
     complete = not fatal and not (raising and repeated)
 
+    f4 = [case["files"][n[1]]["path"] for n in seen if n[0] == "F"
+          and speclike_entry(case, os.path.basename(case["files"][n[1]]["path"]))]
+
     def fail(what, key, observed=None, expected=None):
+        if f4:
+            # known finding F4: whatever goes wrong in a load that lists such an entry is reported under its key
+            out.fail(F4_WHAT, short, {"entries": f4, "seen_as": what,
+                                      "observed": observed if observed is not None else impl["status"]},
+                     expected, key=F4_KEY)
+            return
         out.fail(what, short, observed if observed is not None else impl["status"], expected, key=key)
 
     if st == "runaway":
@@ -840,11 +889,15 @@ def gen_sheet(rng, fi, si, name, elements, xlsx, offsets=True, lead_fixed=None):
                 rows.append(cells("purpose:", "p" + odd() + "q"))
         elif kind == "table":
             bad = len(el) > 2 and el[2]
-            truth.append({"ty": "TABLE", "row": len(rows), "name": el[1], "bad": bool(bad)})
+            uid = el[3] if len(el) > 3 else None
+            truth.append({"ty": "TABLE", "row": len(rows), "name": el[1], "bad": bool(bad),
+                          "uid": None if uid is None else "k%d" % uid})
             ncol = rng.choice([1, 2])
             rows.append(cells("**" + el[1], "") if not xlsx else cells("**" + el[1]))
             rows.append(cells("all"))
             cols = ["c%d" % j for j in range(ncol)]
+            if uid is not None:
+                cols[0] = "k%d" % uid       # table NAMES may repeat over the input set; the first column name does not
             rows.append(cells(*cols))
             units = [rng.choice(["-", "m", "text"]) for _ in cols]
             if bad:
@@ -988,7 +1041,10 @@ def build_case(rng, n_files, edges, *, folders, kinds, root_folder, roots_mode, 
         else:
             pre = prefixes[i % len(prefixes)] if start_pattern is not None else rng.choice(prefixes + prefixes + ["", "~$"])
             base = f"{pre}f{i}"
-        ext = {"csv": rng.choice([".csv", ".csv", ".CSV"]), "xlsx": ".xlsx", "txt": ".txt", "mem": ""}[kind]
+        if (opts or {}).get("hostile_entry", (None,))[0] == i and kind in ("csv", "xlsx"):
+            base = opts["hostile_entry"][1] + base
+        ext = {"csv": rng.choice([".csv", ".csv", ".CSV"]), "xlsx": rng.choice([".xlsx", ".xlsx", ".XLSX"]), "txt": ".txt",
+               "mem": ""}[kind]
         path = (folder + "/" if folder else "") + base + ext if kind != "mem" else f"m{i}"
         files.append({"path": path, "kind": kind, "sheets": []})
     case = {"sibling": bool((opts or {}).get("sibling")),
@@ -996,6 +1052,7 @@ def build_case(rng, n_files, edges, *, folders, kinds, root_folder, roots_mode, 
             "start_pattern": start_pattern, "tracker": tracker, "allow_include": allow_include, "mem": mem,
             "sheet_pattern": sheet_pattern, "roots": None, "root_targets": []}
     tno = 0
+    used_names = []
     for i, f in enumerate(files):
         if f["kind"] == "txt":
             f["sheets"] = [{"name": None, "rows": [], "truth": []}]
@@ -1049,7 +1106,11 @@ def build_case(rng, n_files, edges, *, folders, kinds, root_folder, roots_mode, 
             els = per_sheet[si]
             ntab = rng.choice([0, 1, 1, 2, 3]) if rich else 1
             for _ in range(ntab):
-                els.append(("table", f"t{i}_{tno}", rich and rng.random() < opts.get("bad_p", 0.05)))
+                nm = f"t{i}_{tno}"
+                if rich and used_names and rng.random() < 0.2:
+                    nm = rng.choice(used_names)          # the same table name again, in another sheet / file
+                used_names.append(nm)
+                els.append(("table", nm, rich and rng.random() < opts.get("bad_p", 0.05), tno))
                 tno += 1
             if rich:
                 if rng.random() < 0.35:
@@ -1201,7 +1262,19 @@ def random_case(crng, xlsx_share=0.2, force_mem=False):
     es = {(i, j) for i in range(n) for j in range(n) if crng.random() < dens}
     folders = crng.choice(FOLDER_LAYOUTS)
     extra = []
-    if crng.random() < 0.18:
+    hostile = None
+    if f4_listed() and n >= 2 and crng.random() < 0.04:
+        # known finding F4: one file, reachable only through the listing of its folder, gets a name that reads
+        # like a specification
+        j = crng.randrange(1, n)
+        hostile = (j, crng.choice(["\\", "file:", "FILE:", "mem:", "File:"]))
+        es = {(a, b) for (a, b) in es if b != j}
+        extra.append((0, ("D", folders[j % len(folders)])))
+        if kinds[j] in ("mem", "txt"):
+            kinds[j] = "csv"
+        if kinds[0] in ("mem", "txt"):
+            kinds[0] = "csv"
+    elif crng.random() < 0.18:
         # all-digit folder names, included from the root workbook by NUMBER cells
         folders = crng.choice([["", "20240115"], ["", "1700000000"], ["", "2024", "20240115"], ["", "12345678"],
                                ["", "999999", "1000000"], ["", "4102444800"]])
@@ -1225,10 +1298,19 @@ def random_case(crng, xlsx_share=0.2, force_mem=False):
                       roots_mode=roots_mode, start_pattern=start,
                       tracker=crng.choice(["default", "collecting", "collecting"]),
                       allow_include=crng.random() < 0.85, mem=mem, extra_edges=extra, rich=True,
-                      sheet_pattern=crng.choice([None, None, "in_", "(in|set)_"]), opts={"sibling": sibling})
+                      sheet_pattern=crng.choice([None, None, "in_", "(in|set)_"]), opts={"sibling": sibling, "hostile_entry": hostile or (None,)})
     case["gen"] = {"random": True}
+    if hostile:
+        case["gen"]["f4"] = True
     case["tracker_form"] = crng.choice(TRACKER_FORMS)
     case["roots_form"] = crng.choice(["list", "list", "tuple", "generator", "dict_keys"])
+    case["sep"] = crng.choice([";", ";", ","])
+    case["csv_sep"] = case["sep"] == ";" and crng.random() < 0.3          # the default separator passed explicitly
+    # a Path root: only for plain absolute / relative path texts (str(Path(x)) keeps those readable)
+    case["roots_as_path"] = crng.random() < 0.3 and all(
+        not s.lower().startswith("file:") and not s.startswith("\\") and ":" not in s for s in (case["roots"] or []))
+    case["root_folder_as_str"] = crng.random() < 0.4
+    case["own_file_reader"] = crng.random() < 0.15
     r = crng.random()
     case["pattern_mode"] = "compiled" if r < 0.45 else "both" if (r < 0.5 and start is not None) else "start"
     return case
@@ -1236,21 +1318,75 @@ def random_case(crng, xlsx_share=0.2, force_mem=False):
 
 # ------------------------------------------------------------------------------------------------ run / replay
 
-def probe_order(scratch):
-    """observe the work-list discipline: two plain root files; which one is opened first?"""
-    case = {"folders": [""], "files": [
-        {"path": "pa.csv", "kind": "csv", "sheets": [{"name": None, "rows": [["**pa", ""], ["all"], ["c"], ["-"], ["1"]],
-                                                      "truth": []}]},
-        {"path": "pb.csv", "kind": "csv", "sheets": [{"name": None, "rows": [["**pb", ""], ["all"], ["c"], ["-"], ["1"]],
-                                                      "truth": []}]}],
-        "root_folder": False, "roots": ["{R}/pa.csv", "{R}/pb.csv"], "start_pattern": None, "tracker": "default",
+def _probe_case(files, roots, root_folder):
+    tab = lambda n: [["**" + n, ""], ["all"], ["c"], ["-"], ["1"], [""]]
+    return {"folders": [""], "files": [
+        {"path": p, "kind": "csv", "sheets": [{"name": None, "rows": tab(p[:2]) + extra, "truth": truth}]}
+        for p, extra, truth in files],
+        "root_folder": root_folder, "roots": roots, "start_pattern": None, "tracker": "default",
         "allow_include": True, "mem": False, "sheet_pattern": None, "root_targets": []}
+
+
+def probe_order(scratch):
+    """the order in which the loader works through what it is given is not part of C16 (nothing is promised
+    between files): it is observed on three tiny inputs and handed to the model —
+      pop:      two plain root files; which one is opened first?           lifo | fifo
+      children: a listed folder; entries pushed as listed, sorted, …?      listing | sorted | reverse | sorted_desc
+      lines:    two lines of one include directive; pushed in which order?  forward | reverse"""
+    case = _probe_case([("pa.csv", [], []), ("pb.csv", [], [])], ["{R}/pa.csv", "{R}/pb.csv"], False)
     m = materialise(case, scratch / "probe")
     r = run_impl(case, m)
     names = [o["name"] for o in r.canon["out"] if o["ty"] == "TABLE"]
-    if names == ["pa", "pb"]:
-        return "fifo"
-    return "lifo"
+    order = {"pop": "fifo" if names == ["pa", "pb"] else "lifo", "children": "listing", "lines": "forward"}
+    # children
+    for attempt, stems in enumerate([["qd", "qa", "qe", "qb", "qc", "qf"], ["m3", "m1", "m9", "m2", "m7", "m0", "m5"]]):
+        case = _probe_case([(st + ".csv", [], []) for st in stems], None, True)
+        m = materialise(case, scratch / f"probe_c{attempt}")
+        observe_world(case, m)
+        listing = [n for n in m.listing[m.folder_id[""]]]
+        r = run_impl(case, m)
+        read = [Path(m.path_of[x]).name for x in r.canon["reads"] if m.kind.get(x) == "csv"]
+        pushed = read[::-1] if order["pop"] == "lifo" else read
+        cands = {"listing": listing, "sorted": sorted(listing), "reverse": listing[::-1],
+                 "sorted_desc": sorted(listing, reverse=True)}
+        hits = [k for k, v in cands.items() if v == pushed]
+        if len(hits) == 1 or (hits and attempt == 1):
+            order["children"] = hits[0]
+            break
+    # lines of one directive
+    inc = [["***include"], ["pb.csv"], ["pc.csv"], [""]]
+    case = _probe_case([("pa.csv", inc, []), ("pb.csv", [], []), ("pc.csv", [], [])], ["{R}/pa.csv"], False)
+    m = materialise(case, scratch / "probe_l")
+    r = run_impl(case, m)
+    names = [o["name"] for o in r.canon["out"] if o["ty"] == "TABLE"]
+    doc_order_read = names == ["pa", "pb", "pc"]
+    order["lines"] = "forward" if doc_order_read == (order["pop"] == "fifo") else "reverse"
+    return order
+
+
+def apply_order(case, nodes, order):
+    """the world as the model is told it, with the observed push orders applied"""
+    import copy
+    if order["children"] == "listing" and order["lines"] == "forward":
+        return nodes
+    nodes = copy.deepcopy(nodes)
+    truth_of = {}
+    for n in nodes:
+        if n["kind"] == "folder":
+            ch = n["children"]
+            n["children"] = {"listing": ch, "sorted": sorted(ch), "reverse": ch[::-1],
+                             "sorted_desc": sorted(ch, reverse=True)}[order["children"]]
+    if order["lines"] == "reverse":
+        file_nodes = [n for n in nodes if n["kind"] != "folder"]
+        for f, n in zip(case["files"], file_nodes):
+            if n["kind"] != "file":
+                continue
+            for gs, sh in zip(f["sheets"], n["sheets"]):
+                for b in gs["truth"]:
+                    if b["ty"] == "DIRECTIVE" and b["name"] == "include":
+                        lo, hi = b["row"] + 1, b["row"] + 1 + len(b["lines"])
+                        sh["rows"][lo:hi] = sh["rows"][lo:hi][::-1]
+    return nodes
 
 
 def short_case(case):
@@ -1268,6 +1404,12 @@ def classify(case, impl, out):
     out.count("mem:" + str(case["mem"]))
     out.count("pattern:" + str(case["start_pattern"]))
     out.count("pattern_mode:" + case.get("pattern_mode", "start"))
+    for flag in ("roots_as_path", "root_folder_as_str", "own_file_reader", "csv_sep"):
+        if case.get(flag):
+            out.count("arg:" + flag)
+    out.count("arg:sep=" + case.get("sep", SEP))
+    if any(f["path"].endswith(".XLSX") for f in case["files"]):
+        out.count("cases_with_an_upper_case_xlsx_extension")
     if case.get("sibling") and any("{RN}_old" in ln for f in case["files"] for sh in f["sheets"] for b in sh["truth"]
                                    if b["ty"] == "DIRECTIVE" for ln in b["lines"]):
         out.count("cases_with_an_include_into_a_sibling_whose_name_extends_the_root")
@@ -1399,7 +1541,8 @@ def run_history(calls, base: Path, out, hist_input, order=None, ops=None, pend=N
                    sorted(map(str, shared.protocols.keys())), ["mem"], key="caller_dict_modified")
         for f in o.failures:
             out.fail(f"call {j + 1} of {len(calls)} sharing one protocol dict: " + f["what"],
-                     dict(hist_input, failing_call=j), f["observed"], f["expected"], key="history:" + f["key"])
+                     dict(hist_input, failing_call=j), f["observed"], f["expected"],
+                     key=f["key"] if f["key"] == F4_KEY else "history:" + f["key"])
         if any(f["key"] != "caller_dict_modified" for f in o.failures):
             return False
         if ops is not None:
@@ -1424,8 +1567,8 @@ def run(tier, seed, model_ok, translator, search=False):
     ops, pend = [], []
     try:
         order = probe_order(scratch)
-        out.count("worklist_discipline:" + order)
-        out.notes.append(f"observed work-list discipline: {order}")
+        out.count("worklist_discipline:" + "/".join(order[k] for k in ("pop", "children", "lines")))
+        out.notes.append(f"observed order of work (not part of the property, handed to the model): {order}")
         for idx, case in gen_cases(tier, seed, search):
             case["seed"], case["index"] = seed, idx
             m = materialise(case, scratch / str(idx))
@@ -1443,7 +1586,7 @@ def run(tier, seed, model_ok, translator, search=False):
                 out.nontrivial.add(hash(repr(case["files"]) + repr(case["roots"])))
             classify(case, impl, out)
             oracle(case, m, impl, out)
-            if len(out.failures) >= 25:
+            if sum(1 for f in out.failures if f["key"] != F4_KEY) >= 25:
                 out.notes.append("stopped generating after 25 oracle failures")
                 shutil.rmtree(m.root, ignore_errors=True)
                 break
